@@ -135,6 +135,20 @@ func c14EnvCheck(src string, mi int) (kind, detail string, accepted bool, evals 
 	if base.Err != nil {
 		return "", "", false, evals
 	}
+	// the debug string form of the program equals its compact compilation; compiling does not modify the tree
+	if compact := compileCfg(base.Prog, Cfg{}); compact.Panic == "" {
+		evals++
+		if ts := safeToString(base.Prog); ts != compact.Code {
+			return "env-tostring-differs-from-compact", fmt.Sprintf("debug.ToString gives %q, compact compilation %q", core.Short(ts, 300), core.Short(compact.Code, 300)), true, evals
+		}
+	}
+	defer func() {
+		if kind == "" {
+			if after := dumpTree(base.Prog); after != bd {
+				kind, detail = "env-compile-modifies-tree", "the tree dump (positions, flags, comments) differs after the compilations of this input"
+			}
+		}
+	}()
 	// requesting a source map does not change the generated code (every option set, with and without)
 	for _, cfg := range c14MapPairs {
 		plain := compileCfg(base.Prog, cfg)
